@@ -41,8 +41,8 @@ uint64_t MHD_monotonic_msec_counter (void) { return vclock_ms; }
 /* ---------------------------------------------------------------- config */
 static struct {
   char mode[16]; size_t mem, incr; int lvl; unsigned limit, perip, timeout;
-  int upgrade, suspend, have_lvl; unsigned nonce_tbl;
-} cfg = { "select", 0, 0, 0, 0, 0, 0, 0, 0, 0, 0 };
+  int upgrade, suspend, have_lvl; unsigned nonce_tbl; int no_urilog;
+} cfg = { "select", 0, 0, 0, 0, 0, 0, 0, 0, 0, 0, 0 };
 
 static struct MHD_Daemon *d;
 
@@ -79,6 +79,7 @@ struct conn {
   /* upgrade */
   struct MHD_UpgradeResponseHandle *urh; MHD_socket usock; int upgraded;
   int ctx_serial;
+  struct req *cur;          /* request in progress (for replies queued outside the handler) */
 };
 static struct conn conns[MAXC];
 
@@ -319,6 +320,7 @@ static void completed (void *cls, struct MHD_Connection *mc, void **req_cls, enu
   check_snaps (rq, "completed");
   printf ("completed c=%d r=%d code=%d", rq->c, rq->r, (int) toe); st_fields (mc); putchar ('\n');
   *req_cls = NULL;
+  if (conns[rq->c].cur == rq) conns[rq->c].cur = NULL;
   free_req (rq);
 }
 
@@ -362,6 +364,7 @@ static enum MHD_Result handler_inner (void *cls, struct MHD_Connection *mc, cons
     rq = (struct req *) calloc (1, sizeof(*rq));
     rq->c = c; rq->r = conns[c].nreq++;
     *req_cls = rq;
+    conns[c].cur = rq;
     phase = "first";
     add_snap (rq, url, strlen (url) + 1); add_snap (rq, method, strlen (method) + 1); add_snap (rq, version, strlen (version) + 1);
     sa.rq = rq;
@@ -419,6 +422,7 @@ static enum MHD_Result handler_inner (void *cls, struct MHD_Connection *mc, cons
   if (b->l[0] == 's' && !rq->suspended_once_final)
   { rq->suspended_once_final = 1; do_suspend (mc, rq, atoi (b->l + 1)); return MHD_YES; }
   if (!strcmp (b->l, "no")) return MHD_NO;
+  if (!strcmp (b->l, "c")) return MHD_YES;   /* never replies */
   if (b->l[0] == 'r') return do_reply (mc, rq, parse_rid (b->l)) == MHD_YES ? MHD_YES : MHD_NO;
   return do_reply (mc, rq, 0) == MHD_YES ? MHD_YES : MHD_NO;
 }
@@ -510,7 +514,7 @@ static void start_daemon (void)
   if (cfg.nonce_tbl) { ops[n].option = MHD_OPTION_NONCE_NC_SIZE; ops[n].value = cfg.nonce_tbl; ops[n++].ptr_value = NULL; }
   ops[n].option = MHD_OPTION_NOTIFY_COMPLETED; ops[n].value = (intptr_t) &completed; ops[n++].ptr_value = NULL;
   ops[n].option = MHD_OPTION_NOTIFY_CONNECTION; ops[n].value = (intptr_t) &notify_conn; ops[n++].ptr_value = NULL;
-  ops[n].option = MHD_OPTION_URI_LOG_CALLBACK; ops[n].value = (intptr_t) &uri_log; ops[n++].ptr_value = NULL;
+  if (!cfg.no_urilog) { ops[n].option = MHD_OPTION_URI_LOG_CALLBACK; ops[n].value = (intptr_t) &uri_log; ops[n++].ptr_value = NULL; }
   ops[n].option = MHD_OPTION_END; ops[n].value = 0; ops[n++].ptr_value = NULL;
   d = MHD_start_daemon (flags, 0, NULL, NULL, &handler, NULL, MHD_OPTION_ARRAY, ops, MHD_OPTION_END);
   out (d ? "started" : "start-failed");
@@ -561,6 +565,7 @@ int main (void)
         else if (kv (l.w[i], "upgrade", &v)) cfg.upgrade = atoi (v);
         else if (kv (l.w[i], "suspend", &v)) cfg.suspend = atoi (v);
         else if (kv (l.w[i], "nonce_tbl", &v)) cfg.nonce_tbl = (unsigned) atoi (v);
+        else if (kv (l.w[i], "urilog", &v)) cfg.no_urilog = !atoi (v);
       }
       out ("ok"); continue;
     }
@@ -660,6 +665,17 @@ int main (void)
     if (!strcmp (op, "up-send") && l.n >= 3 && lp_u64 (l.w[1], &a) && a < MAXC && conns[a].upgraded)
     { size_t n; uint8_t *bytes = lp_unhex (l.w[2], &n); ssize_t r = bytes ? send (conns[a].usock, bytes, n, MSG_NOSIGNAL) : -1; free (bytes);
       out ("up-sent c=%d n=%zd", (int) a, r); continue; }
+    if (!strcmp (op, "reply-out") && l.n >= 3 && lp_u64 (l.w[1], &a) && lp_u64 (l.w[2], &b) && a < MAXC && b < MAXRESP)
+    { /* MHD_queue_response called by the application outside the access handler */
+      struct MHD_Response *m; enum MHD_Result q;
+      if (!conns[a].used || NULL == conns[a].mc) { out ("bad-op"); continue; }
+      m = make_resp ((int) b);
+      if (NULL == m) { out ("bad-op"); continue; }
+      q = MHD_queue_response (conns[a].mc, resps[b].code, m);
+      out ("queued c=%d r=%d rid=%d code=%u -> %d", (int) a, conns[a].nreq - 1, (int) b, resps[b].code, (int) q);
+      MHD_destroy_response (m);
+      if (MHD_YES == q && conns[a].used && conns[a].cur) conns[a].cur->replied = 1;
+      continue; }
     if (!strcmp (op, "fail-calloc") && l.n >= 2) { calloc_fail_in = atol (l.w[1]); out ("ok"); continue; }
     if (!strcmp (op, "fail-epoll-add") && l.n >= 2) { epoll_add_fail_in = atol (l.w[1]); out ("ok"); continue; }
     if (!strcmp (op, "stop")) {
